@@ -25,12 +25,13 @@ import (
 
 type MonC01 struct {
 	BaseMon
-	denoms   map[string]bool
-	stranded map[string]math.Int // accumulated, explained by the known finding
+	denoms        map[string]bool
+	stranded      map[string]math.Int // accumulated, explained by the known finding
+	slashStranded map[string]math.Int // stranded inside this block's slash callbacks (judged there, with the right pre-state)
 }
 
 func NewMonC01(r *Runner) *MonC01 {
-	return &MonC01{BaseMon: BaseMon{r}, denoms: map[string]bool{}, stranded: map[string]math.Int{}}
+	return &MonC01{BaseMon: BaseMon{r}, denoms: map[string]bool{}, stranded: map[string]math.Int{}, slashStranded: map[string]math.Int{}}
 }
 func (m *MonC01) Name() string { return "C01" }
 
@@ -105,7 +106,7 @@ func (m *MonC01) check(where string, idx int, pre, post *Snap, ev *ParsedEvents,
 			return
 		}
 		if !delta.Equal(want) {
-			if delta.Equal(want.Add(strandedNow)) && strandedNow.IsPositive() && m.strandedCause(pre, ev) {
+			if delta.Equal(want.Add(strandedNow)) && strandedNow.IsPositive() && (m.strandedCause(pre, ev) || (m.slashStranded[d].IsPositive() && strandedNow.LTE(m.slashStranded[d]))) {
 				m.stranded[d] = cur.Add(strandedNow)
 				rep.KnownFinding("C01", "stranded-rewards", "%s: %s%s withdrawn for a validator without delegator shares stays in custody (not forwarded to the rewards pool)", where, strandedNow, d)
 				rep.Class("C01.stranded")
@@ -210,7 +211,21 @@ func (m *MonC01) AfterBlock(o *BlockOutcome) {
 	if o.tainted {
 		return // a slash callback aborted half-way: judged by C08
 	}
+	m.slashStranded = map[string]math.Int{}
+	for _, sl := range o.Slashes {
+		if sl.Err != "" || sl.Panic != "" || !strandedCause(m.R.W, sl.Pre, sl.Ev) {
+			continue
+		}
+		for d := range m.denoms {
+			cur, ok := m.slashStranded[d]
+			if !ok {
+				cur = math.ZeroInt()
+			}
+			m.slashStranded[d] = cur.Add(strandedIn(m.R.W, sl.Ev, d))
+		}
+	}
 	m.check("begin-block", o.Idx, o.PostEnd, o.PostBeg, o.BegEv, sdk.NewCoins())
+	m.slashStranded = map[string]math.Int{}
 }
 
 // ================================================================================================
